@@ -18,6 +18,11 @@ import (
 //   vh exact <cases>
 func init() { register("exact", exactEngine) }
 
+// linear in inputs and states for fixed parameters (homogeneous of degree one): Lag's delay line, Muskingum's weights,
+// sums, fixed-fraction partitions, constant factors
+var linearModels = map[string]bool{"Lag": true, "Muskingum": true, "Sum": true, "Input": true, "FixedPartition": true,
+	"ApplyScalingFactor": true, "DeliveryRatio": true}
+
 type rat [2]float64
 
 func (r rat) f() float64 { return r[0] / r[1] }
@@ -143,7 +148,63 @@ func exactEngine(args []string) error {
 		// states, cleared outputs): a model may not use its arguments as scratch space, so the second run must give the
 		// exact values again
 		applied := false
-		for pass := 1; pass <= 2; pass++ {
+		// models that are linear in (inputs, states) for fixed parameters get two more passes with everything scaled
+		// by 2^-40 and 2^40 (exact in binary floating point): the results must scale with it -- thresholds such as
+		// "flows below 1e-9 are nothing" break that
+		npass := 2
+		if linearModels[e.Model] {
+			npass = 4
+		}
+		for pass := 1; pass <= npass; pass++ {
+			if pass >= 3 {
+				sc := math.Ldexp(1, -40)
+				if pass == 4 {
+					sc = math.Ldexp(1, 40)
+				}
+				m2 := factory()
+				sArr2 := data.NewArray2DFloat64(1, ns)
+				for k, v := range e.States {
+					sArr2.Set2(0, k, v.f()*sc)
+				}
+				iArr2 := data.NewArray3DFloat64(1, len(e.Inputs), T)
+				for j := range e.Inputs {
+					for t := 0; t < T; t++ {
+						iArr2.Set3(0, j, t, e.Inputs[j][t].f()*sc)
+					}
+				}
+				oArr2 := data.NewArray3DFloat64(1, len(desc.Outputs), T)
+				if pm := protect(func() {
+					m2.ApplyParameters(pArr)
+					m2.Run(iArr2, sArr2, oArr2)
+				}); pm != "" {
+					fail("panic", fmt.Sprintf("%s (inputs and states scaled by 2^%d)", pm, map[int]int{3: -40, 4: 40}[pass]))
+					break
+				}
+				bad := false
+				for k := range c.Out {
+					for t := 0; t < T && !bad; t++ {
+						got, want := oArr2.Get3(0, k, t), c.Out[k][t].f()*sc
+						if !nearly(got/sc, want/sc, scale) {
+							fail("output", fmt.Sprintf("with inputs and states scaled by 2^%d: output %s[%d] = %v, the scaled exact value is %v (linear model)", map[int]int{3: -40, 4: 40}[pass], desc.Outputs[k], t, got, want))
+							bad = true
+						}
+					}
+				}
+				for k := range c.St {
+					if bad {
+						break
+					}
+					got, want := sArr2.Get2(0, k), c.St[k].f()*sc
+					if !nearly(got/sc, want/sc, scale) {
+						fail("state", fmt.Sprintf("with inputs and states scaled by 2^%d: final state %d = %v, the scaled exact value is %v (linear model)", map[int]int{3: -40, 4: 40}[pass], k, got, want))
+						bad = true
+					}
+				}
+				if bad {
+					break
+				}
+				continue
+			}
 			note := ""
 			if pass == 2 {
 				note = " (second run on the same parameter and input arrays)"
